@@ -414,12 +414,19 @@ def gen_script(rng, mesh, length=None):
             return [u, u]
         return [rng.randrange(nv), rng.randrange(nv)]
 
+    # an id one past the end, for the accessors that index a container directly (their exception is the answer)
+    ABSENT = {"face_to_first_corner": lambda: [nf], "face_to_corners": lambda: [nf], "face_to_vertices": lambda: [nf],
+              "face_to_edges": lambda: [nf], "vertex_to_vertices": lambda: [nv], "vertex_to_faces": lambda: [nv],
+              "corner_to_face": lambda: [nc], "edge_to_vertices": lambda: [ne], "other_edge_end": lambda: [ne, 0]}
     out = []
     names = [q for q in QNAMES]
     weights = [0.25 if q in ("clear", "clear_boundary_data") else 1.0 for q in names]
     for _ in range(length):
         q = rng.choices(names, weights)[0]
         sig = QUERIES[q]
+        if q in ABSENT and rng.random() < 0.06:
+            out.append([q] + ABSENT[q]())
+            continue
         if sig == "":
             args = []
         elif sig == "V":
